@@ -202,18 +202,34 @@ class Processor(ABC):
                 # materialize_as to tell an immediately-upstream
                 # transfer to materialize directly.
                 new_target, persisted = self._process_recursive(target, materialize_as=name)
+                # The relation that should hold the payload in the result;
+                # engines may wrap a new materialization in markers of their
+                # own (e.g. sql.Select), which must not receive the payload.
+                holder: Relation
                 if new_target is not target:
                     result = new_target.materialized(name=name)
-                    if result.payload is not None:
+                    holder = result
+                    while (
+                        holder.payload is None
+                        and isinstance(holder, MarkerRelation)
+                        and not isinstance(holder, Materialization)
+                    ):
+                        holder = holder.target
+                    if holder.payload is not None:
                         # This operation has been simplified away
                         # (perhaps it's now a materialization of a
                         # leaf).
-                        original.attach_payload(result.payload)
+                        original.attach_payload(holder.payload)
                         return result, True
                 else:
-                    result = original
+                    result = holder = original
                 if persisted:
-                    payload = new_target.payload
+                    # The payload was attached to the upstream transfer, which
+                    # may also be hidden behind engine-specific markers.
+                    source = new_target
+                    while source.payload is None and isinstance(source, MarkerRelation):
+                        source = source.target
+                    payload = source.payload
                 elif original.is_join_identity:
                     payload = target.engine.get_join_identity_payload()
                 elif original.max_rows == 0:
@@ -224,8 +240,8 @@ class Processor(ABC):
                 # the processed one, so it's used every time that the
                 # original relation tree is processed.
                 original.attach_payload(payload)
-                if result is not original:
-                    result.attach_payload(payload)
+                if holder is not original:
+                    holder.attach_payload(payload)
                 return result, True
             case MarkerRelation(target=target):
                 new_target, persisted = self._process_recursive(target, materialize_as=materialize_as)
